@@ -639,6 +639,104 @@ Section Proofs.
       exists p'. split; [eapply psteps_step; eassumption|exact Hd].
   Qed.
 
+  (* the send actions of [head_step] are exactly the outcomes of the helper
+       match tx.try_send(m) { Ok => Ok, Full(m) => { sleep; tx.send(m) }, Disconnected(m) => Err }  *)
+  Lemma helper_faithful (c : cell) (rest : pipe) m pd :
+    pend_of (ns c) = m :: pd -> length (q c) <= cap c ->
+    let r := try_send (alive rest) (cap c) (length (q c)) (waiting rest) in
+    (r = TryDisconnected <-> head_step false AErr (PCell c rest) <> None) /\
+    (r = TryOk <-> (head_step false AEnq (PCell c rest) <> None \/
+                    (q c = [] /\ cap c = 0 /\ head_step false AXfer (PCell c rest) <> None))) /\
+    (r = TryFull -> slept_of (ns c) = false -> head_step false ASleep (PCell c rest) <> None) /\
+    (head_step false ASleep (PCell c rest) <> None -> alive rest = true /\ slept_of (ns c) = false /\ cap c <= length (q c)).
+  Proof.
+    intros Ep Hcap. cbv zeta. unfold try_send. cbn [head_step]. rewrite Ep.
+    split; [|split; [|split]].
+    - destruct (alive rest); cbn [negb]; split; intros H; try congruence.
+      destruct ((length (q c) <? cap c) || ((cap c =? 0) && waiting rest)); discriminate.
+    - destruct (alive rest) eqn:Ea; cbn [negb andb].
+      + destruct (length (q c) <? cap c) eqn:El; cbn [orb].
+        * split; [intros _; left; discriminate|reflexivity].
+        * apply Nat.ltb_ge in El. unfold take. split.
+          -- destruct (cap c =? 0) eqn:Ec; cbn [andb]; [|discriminate].
+             destruct (waiting rest) eqn:Ew; [|discriminate]. intros _. right.
+             apply Nat.eqb_eq in Ec. rewrite Ec in *. destruct (q c) as [|x q']; [|cbn in Hcap; lia].
+             split; [reflexivity|]. split; [reflexivity|]. rewrite Ep.
+             destruct (wants_input_spec rest Ew) as [_ [Hacc _]]. destruct (Hacc m) as [r' Hr']. rewrite Hr'. discriminate.
+          -- intros [H|[Hq [Hc H]]]; [congruence|]. rewrite Hc, Hq, Ep in *. cbn [Nat.eqb andb].
+             destruct (waiting rest) eqn:Ew; [reflexivity|]. exfalso. apply H.
+             destruct rest as [b d|c2 r2]; cbn [waiting accept] in *.
+             ++ rewrite Ew. reflexivity.
+             ++ destruct (ns c2) as [s2 pd2 sl2|s2 pd2 sl2|s2]; try reflexivity. destruct pd2; [discriminate|reflexivity].
+      + split; [discriminate|]. intros [H|[_ [_ H]]]; [congruence|]. exfalso. apply H.
+        destruct (take c) as [[m' c']|]; [|reflexivity].
+        destruct rest as [b d|c2 r2]; cbn [alive accept] in *; [rewrite Ea; reflexivity|].
+        destruct (ns c2) as [s2 pd2 sl2|s2 pd2 sl2|s2]; try reflexivity; discriminate.
+    - destruct (alive rest); cbn [negb andb]; [|discriminate].
+      destruct (length (q c) <? cap c) eqn:El; cbn [orb].
+      + discriminate.
+      + intros _ Hs. rewrite Hs. cbn [negb andb]. apply Nat.ltb_ge in El. apply Nat.leb_le in El. rewrite El. discriminate.
+    - destruct (alive rest); cbn [andb]; [|congruence].
+      destruct (slept_of (ns c)); cbn [negb andb]; [congruence|].
+      destruct (cap c <=? length (q c)) eqn:El; [|congruence]. apply Nat.leb_le in El. auto.
+  Qed.
+
+  (* the channels really are bounded: no FIFO ever holds more than its capacity (capacity 0: never anything) *)
+  Fixpoint within_cap (p : pipe) : Prop :=
+    match p with PEnd _ _ => True | PCell c rest => length (q c) <= cap c /\ within_cap rest end.
+
+  Lemma accept_within m (p p' : pipe) : accept m p = Some p' -> within_cap p -> within_cap p'.
+  Proof.
+    destruct p as [b d|c rest]; cbn [accept].
+    - destruct b; intros H; inversion H; auto.
+    - destruct (ns c) as [s pd sl|s pd sl|s]; try discriminate. destruct pd; try discriminate.
+      destruct (step_fn (stg c) s m). intros H; inversion H; subst. cbn. auto.
+  Qed.
+  Lemma eos_within (p p' : pipe) : eos p = Some p' -> within_cap p -> within_cap p'.
+  Proof.
+    destruct p as [b d|c rest]; cbn [eos].
+    - destruct b; intros H; inversion H; auto.
+    - destruct (ns c) as [s pd sl|s pd sl|s]; try discriminate. destruct pd; try discriminate.
+      intros H; inversion H; subst. cbn. auto.
+  Qed.
+  Lemma step_within dr (p p' : pipe) : step dr p p' -> within_cap p -> within_cap p'.
+  Proof.
+    induction 1 as [a p p' H|c rest rest' H IH]; [|cbn [within_cap]; intros [H1 H2]; auto].
+    destruct p as [b d|c rest]; cbn [head_step] in H.
+    - destruct a; try discriminate. destruct (dr && b); inversion H; auto.
+    - intros [H1 H2]. destruct a.
+      + destruct (pend_of (ns c)); try discriminate.
+        destruct (alive rest && (length (q c) <? cap c)) eqn:E; try discriminate. inversion H; subst.
+        apply andb_true_iff in E. destruct E as [_ E]. apply Nat.ltb_lt in E.
+        cbn [within_cap with_ns_q q cap]. rewrite app_length. cbn [length]. split; [lia|exact H2].
+      + destruct (pend_of (ns c)); try discriminate. destruct (alive rest && _ && _); inversion H; subst. cbn. auto.
+      + destruct (ns c) as [s pd sl|s pd sl|s]; try discriminate. destruct pd; inversion H; subst. cbn. auto.
+      + destruct (pend_of (ns c)); try discriminate. destruct (alive rest); inversion H; subst. cbn. auto.
+      + destruct (take c) as [[m c']|] eqn:Et; try discriminate. destruct (accept m rest) as [rest'|] eqn:Ea; try discriminate.
+        inversion H; subst. cbn [within_cap]. split; [|exact (accept_within _ _ _ Ea H2)].
+        unfold take in Et. destruct (q c) as [|x q'] eqn:Eq.
+        * destruct (cap c); try discriminate. destruct (pend_of (ns c)); try discriminate.
+          inversion Et; subst. cbn [with_ns q cap]. rewrite Eq. cbn. lia.
+        * inversion Et; subst. cbn [with_ns_q q cap]. cbn [length] in H1. lia.
+      + destruct (closed c); try discriminate. destruct (eos rest) as [rest'|] eqn:Ee; try discriminate.
+        inversion H; subst. cbn [within_cap]. split; [exact H1|exact (eos_within _ _ Ee H2)].
+      + discriminate.
+  Qed.
+
+  Lemma init_pipe_within s0 input cap0 (gs : list (stage * nat)) : within_cap (init_pipe s0 input cap0 gs).
+  Proof.
+    unfold init_pipe. cbn [within_cap source q length]. split; [lia|].
+    induction gs as [|[g c] r IH]; cbn [stages_pipe within_cap q length]; auto. split; [lia|exact IH].
+  Qed.
+
+  Theorem channels_bounded dr s0 input cap0 (gs : list (stage * nat)) (p' : pipe) :
+    psteps dr (init_pipe s0 input cap0 gs) p' -> within_cap p'.
+  Proof.
+    intros H. pose proof (init_pipe_within s0 input cap0 gs) as Hw. revert Hw.
+    induction H as [p|p p1 p' H1 H2 IH]; intros Hw; [exact Hw|]. apply IH.
+    destruct H1 as [H1|H1]; [exact (step_within _ _ _ H1 Hw)|exact (eos_within _ _ H1 Hw)].
+  Qed.
+
   (* ------------------------------------------------------------------ E. the executable scheduler *)
   Lemma do_step_sound dr i a : forall (p p' : pipe), do_step dr i a p = Some p' -> step dr p p'.
   Proof.
